@@ -310,19 +310,127 @@ def run_history(ctx, n):
                           what="a reused predicate object answers differently from fresh ones")
 
 
+# ---------------------------------------------------------------- the laws on the command-line route
+
+def _variant(sc, run):
+    """file scenario of one run of a chain group: the two files in the order they are handed to the CLI"""
+    return dict(sc, res=sc[run["files"][0]], ref=sc[run["files"][1]], rtol=run["rtol"], atol=run["atol"])
+
+
+def _chain_payload(ct, g, law, runs, picked):
+    return dict(g, law=law, runs=[{k: r[k] for k in ("run", "level", "files", "rtol", "atol", "out")} for r in runs],
+                evaluations=[{"files": r["files"], "argv_options": ct.option_argv(dict(g["sc"], rtol=r["rtol"], atol=r["atol"])),
+                              "exit": r["out"]} for r in picked])
+
+
+def run_cli_chains(ctx, n_vtu, rounds):
+    """reflexive / symmetric / monotone for a command-line user (`fieldcompare._cli.main(["file", A, B, …])` on generated
+    CSV / .vtu files with float64 fields).  One pair of files, a chain of option lists whose selected tolerance of one
+    field grows level by level STARTING AT AN EXPLICIT ZERO (`-rtol NAME:0` -> `NAME:t1` -> `NAME:t2`, with / without a
+    general value of the same option before or after it, or the general value itself growing), everything else fixed:
+      monotone   exit 0 at level i  =>  exit 0 at every level j > i  (every field's selected rel and abs are <= there:
+                 decided from the documented option semantics, NAME:V overrides the general V, absent = eps / 0),
+      symmetric  swapping the two files does not change the exit class,
+      reflexive  a file against ITSELF passes under the zero level and under all-zero options.
+    These are the relations the property itself states, instantiated on the CLI route; in addition every run's exit code
+    is compared with the Lean model of the predicate on the fields (exit 0 iff all model-equal; correspondence)."""
+    from fcv import clitol_p5a as ct, cli_scen as cs
+    groups = ct.chain_groups(ctx.rng, n_vtu, rounds)
+    wd = cs.Workdir()
+    try:
+        CH = 40
+        for i0 in range(0, len(groups), CH):
+            chunk = groups[i0:i0 + CH]
+            ran = [ct.run_chain(g, wd) for g, _ in chunk]
+            variants, owner = [], []
+            for gi, ((g, _), (_ok, runs)) in enumerate(zip(chunk, ran)):
+                for ri, r in enumerate(runs):
+                    variants.append(_variant(g["sc"], r)); owner.append((gi, ri))
+            exps = ct.expected(ctx, variants)
+            exp_of = dict(zip(owner, exps))
+            for gi, ((g, tags), (readok, runs)) in enumerate(zip(chunk, ran)):
+                key = ("cli-chain", repr(g["levels"]), repr(g["other_tokens"]), repr(cs.data_fields(g["sc"]["res"])),
+                       repr(cs.data_fields(g["sc"]["ref"])))
+                if not readok:
+                    ctx.case(key, nontrivial=False, tags=list(tags) + ["cli-discarded-reader-sidecheck"])
+                    continue
+                lv = [r for r in runs if r["run"] == "level"]
+                ctx.case(key, nontrivial=True, sample=None,
+                         tags=list(tags) + ["chain-exits-" + "".join("0" if r["out"] == "0" else "x" for r in lv)])
+                for ri, r in enumerate(runs):
+                    e = exp_of[(gi, ri)]
+                    if e["bad"] is not None:
+                        ctx.inconsistent(_chain_payload(ct, g, "model", runs, [r]), str(e["bad"]), "bad-op")
+                    elif e["model"] is not None and e["hyp"]:
+                        wm = ct.want_exit(e["model"])
+                        if not ct.agrees(r["out"], wm):
+                            ctx.mismatch(_chain_payload(ct, g, "model", runs, [r]), "exit=" + r["out"], "exit " + str(wm),
+                                         what="CLI exit status vs model verdicts of the compared fields")
+                        if e["spec"] != e["model"]:
+                            ctx.inconsistent(_chain_payload(ct, g, "model", runs, [r]), str(e["model"]), str(e["spec"]))
+                for a in range(len(lv)):
+                    for b in range(a + 1, len(lv)):
+                        if lv[a]["out"] == "0" and lv[b]["out"] != "0" and ct.levels_ordered(g, a, b):
+                            ctx.violation(_chain_payload(ct, g, "monotone", runs, [lv[a], lv[b]]),
+                                          f"level{a}:exit={lv[a]['out']} level{b}:exit={lv[b]['out']}", "pass stays pass",
+                                          what="enlarging a tolerance on the command line turned a pass into a fail")
+                for r in runs:
+                    if r["run"] == "swapped" and r["out"] != lv[r["level"]]["out"]:
+                        ctx.violation(_chain_payload(ct, g, "symmetric", runs, [lv[r["level"]], r]),
+                                      f"{lv[r['level']]['out']}/{r['out']}", "equal exit classes",
+                                      what="exit status depends on which file is given as result and which as reference")
+                    if r["run"] == "self" and r["out"] != "0":
+                        ctx.violation(_chain_payload(ct, g, "reflexive", runs, [r]), "exit=" + r["out"], "exit 0",
+                                      what="a file does not compare equal to itself under zero tolerances")
+    finally:
+        wd.close()
+
+
+def replay_cli_chain(ctx, c):
+    """re-run every evaluation of a chain group and re-check the law it was reported for"""
+    from fcv import clitol_p5a as ct, cli_scen as cs
+    wd = cs.Workdir()
+    try:
+        _ok, runs = ct.run_chain(c, wd)
+    finally:
+        wd.close()
+    lv = [r for r in runs if r["run"] == "level"]
+    for r in runs:
+        print(f"replay: {r['run']} level={r['level']} files={r['files']} "
+              f"options={ct.option_argv(dict(c['sc'], rtol=r['rtol'], atol=r['atol']))} -> exit class {r['out']}")
+    bad = []
+    for a in range(len(lv)):
+        for b in range(a + 1, len(lv)):
+            if lv[a]["out"] == "0" and lv[b]["out"] != "0" and ct.levels_ordered(c, a, b):
+                bad.append(f"monotone: level {a} passes, level {b} fails")
+    for r in runs:
+        if r["run"] == "swapped" and r["out"] != lv[r["level"]]["out"]:
+            bad.append(f"symmetric: level {r['level']}")
+        if r["run"] == "self" and r["out"] != "0":
+            bad.append("reflexive")
+    print("replay: laws violated:", bad or "none")
+    return bool(bad)
+
+
 def run(ctx):
     ctx.rule = ("metamorphic groups on real predicate objects: float64 pairs (boundary-directed deviations, shapes "
                 "(n,),(n,k),(n,k,k)) evaluated as (a,a),(a,b),(b,a) and at tolerance levels t1<=t2 (scalar, per-component, "
                 "scaled); integer pairs of every width/signedness under Default/Exact/Fuzzy (values at the type limits, half range, "
                 "+-2^53; (n,) and 0-d; signed pairs are classified by the driver as safe / type-minimum / overflowing "
                 "difference); ScaledTolerance values on "
-                "float and integer arrays; predicate objects reused across 3-6 fields; non-trivial = a != b; distinct = "
-                "distinct operands+tolerances")
-    ctx.assumptions += ["numpy float64 arithmetic = round-to-nearest-even (model compared on every evaluation)"]
+                "float and integer arrays; predicate objects reused across 3-6 fields; the same laws on the command-line route "
+                "(CSV / .vtu files with float64 fields, chains of -rtol / -atol option lists starting at an explicit zero, general "
+                "and per-field values in either order, files swapped, file against itself); non-trivial = a != b; distinct = "
+                "distinct operands+tolerances resp. (option chain, file contents)")
+    ctx.assumptions += ["numpy float64 arithmetic = round-to-nearest-even (model compared on every evaluation)",
+                        "command-line route: readers return the float64 data the files were written from (side-check on every "
+                        "generated file), exit code 0 iff every compared field passes (C04), option semantics as documented "
+                        "(NAME:V overrides the general V whatever the order; absent: rel = eps, abs = 0)"]
     run_floats(ctx, ctx.scale(1500, 150000))
     run_ints(ctx, ctx.scale(400, 30000))
     run_scaled(ctx, ctx.scale(600, 50000))
     run_history(ctx, ctx.scale(150, 10000))
+    run_cli_chains(ctx, n_vtu=ctx.scale(16, 70), rounds=ctx.scale(1, 12))
 
 
 def replay_witness(ctx, entry):
@@ -345,6 +453,11 @@ def replay_witness(ctx, entry):
 def replay(ctx, payload):
     c = payload["case"]
     law = c.get("law")
+    if c.get("kind") == "cli-chain":
+        if replay_cli_chain(ctx, c):
+            print(f"VIOLATION property=C10 replay={payload.get('_path', '<replay>')}")
+            return 1
+        return 0
     if law in ("symmetric", "scaled"):
         fails, detail = replay_witness(ctx, {"witness": dict(c, kind=c.get("kind", "fuzzy"))})
         print("replay:", detail)
